@@ -35,6 +35,7 @@ from typing import List
 from markupsafe import Markup
 
 from jinja2 import DictLoader, Environment, meta
+from jinja2.bccache import BytecodeCache
 from jinja2.runtime import Undefined
 from jinja2.utils import Namespace
 from vfw.core import Cond, pick, pickb
@@ -161,16 +162,19 @@ def R(tag, *exprs):
 
 SKEL = {
     "a_sum": R("s1", "nest|sum(start=acc)") + R("s2", "xs|sum(start=n)") + R("s3", "items|sum(attribute='v', start=GL)")
-             + R("s4", "nest|sum(start=TL)") + R("s5", "nest|sum(start=[])") + R("s6", "nest|map('sum')|list")
+             + R("s4", "nest|sum(start=TL)") + R("s5", "nest|sum(start=[])") + R("s6", "nest|map('sum')|list", "GL|sort")
              + R("s7", "dl|dictsort|map('last')|sum(start=acc)") + "{% if nest|sum(start=acc)|length > 2 %}L{% endif %}",
     "a_sort": R("o1", "xs|sort") + R("o2", "xs|sort(reverse=b)") + R("o3", "xs|reverse|list") + R("o4", "items|sort(attribute='k')")
-              + R("o5", "nest|sort") + R("o6", "xs|min", "xs|max", "xs|first", "xs|last") + R("o7", "d|dictsort")
-              + R("o8", "d|dictsort(by='value', reverse=b)") + R("o9", "GL|sort", "TL|reverse|list", "nest|first", "nest|last")
-              + R("o10", "items|max(attribute='k')", "nest|min"),
-    "a_map": R("m1", "xs|map('abs')|list") + R("m2", "items|map(attribute='v')|list") + R("m3", "xs|select('gt', n)|list")
-             + R("m4", "xs|reject('odd')|list") + R("m5", "items|selectattr('k', 'eq', n)|list") + R("m6", "items|rejectattr('k')|list")
-             + R("m7", "nest|map('first')|list", "nest|map('reverse')|map('list')|list")
-             + R("m8", "items|map(attribute='zz', default=acc)|list") + R("m9", "xs|select('in', acc)|list", "nest|select|list"),
+              + R("o5", "nest|sort") + R("o5b", "TD.k|sort(reverse=true)", "nest|first", "nest|last"),
+    "a_minmax": R("o6", "xs|min", "xs|max", "xs|first", "xs|last") + R("o7", "d|dictsort")
+                + R("o8", "d|dictsort(by='value', reverse=b)") + R("o9", "TL|reverse|list")
+                + R("o10", "items|max(attribute='k')", "nest|min"),
+    "a_map": R("m1", "xs|map('abs')|list") + R("m2", "items|map(attribute='v')|list") + R("m2b", "nest|map('sum')|list", "TD.k|map('abs')|list"),
+    "a_map2": R("m7", "nest|map('first')|list", "nest|map('reverse')|map('list')|list")
+              + R("m8", "items|map(attribute='zz', default=acc)|list") + R("m9", "xs|select('in', acc)|list", "nest|select|list"),
+    "a_select": R("m3", "xs|select('gt', n)|list", "TD.k|reject('gt', n)|list"),
+    "a_reject": R("m4", "xs|reject('ge', m)|list") + R("m5", "items|selectattr('k', 'ge', m)|list")
+                + R("m6", "items|rejectattr('v')|list", "items|selectattr('v')|list"),
     "a_batch": R("b1", "xs|batch(2, acc)|list") + R("b2", "xs|slice(2, acc)|list") + R("b3", "xs|unique|list")
                + R("b4", "items|groupby('k')|map('list')|list") + R("b5", "items|unique(attribute='k')|list")
                + R("b6", "xs|list", "d|items|list", "dl|list", "dl|length", "nest|batch(1)|list")
@@ -205,7 +209,7 @@ SKEL = {
                 "{{ lib.ctxm(rec) }}{{ ctxm2(rec) }}" + R("lv", "LV + xs", "LD", "lib.LV"),
     "a_inc": "{% set iv = acc + xs %}" + R("inc", "iv", "GL", "TL|default(0)", "loc|default(-1)")
              + "{% for x in xs %}{% set acc = [x] %}{% endfor %}i",
-    "a_inc2": "inc2[{{ GL|length }}{{ xs|default('nox') }}{{ TL|default('notl') }}]",
+    "a_inc2": "inc2[{{ GL|length }}{{ xs|default([])|length }}{{ TL|default([])|length }}]",
     "a_include": "{% set loc = nest %}{% include 'a_inc' %}{% for x in xs %}{% include 'a_inc' %}{% endfor %}"
                  "{% include 'a_inc2' without context %}{% include ['nope', 'a_inc'] ignore missing %}"
                  "{% include 'nope' ignore missing %}" + R("after", "acc", "iv|default(-1)"),
@@ -213,12 +217,12 @@ SKEL = {
               "{% for x in xs %}{% block two scoped %}" + R("b2", "x", "acc + [x]") + "{% endblock %}{% endfor %}"
               "{% block three %}{% endblock %}]",
     "a_extends": "{% extends 'a_base' %}{% set cv = nest|sum(start=acc) %}{% block one %}{{ super() }}"
-                 + R("c1", "cv|default(-1)", "self.three()|length") + "{% endblock %}{% block three %}" + R("c3", "GL|sort", "TD") + "x{% endblock %}",
+                 + R("c1", "cv|default(-1)", "self.three()|length") + "{% endblock %}{% block three %}" + R("c3", "GL|reverse|list", "TD") + "x{% endblock %}",
     "a_other": "{% set xs = xs + [n] %}{% set acc = [] %}{% import 'a_lib' as lib %}{{ lib.mm(rec, m) }}{{ lib.ctxm(rec) }}"
                "{% set ns = namespace(l=acc) %}{% set ns.l = ns.l + [1] %}{% for x in xs %}{% set GL = [x] %}{% endfor %}"
-               "{% include 'a_inc2' without context %}{% include 'a_inc' %}" + R("other", "xs", "nest|sum(start=acc)", "TL", "GL|sort"),
+               "{% include 'a_inc2' without context %}{% include 'a_inc' %}" + R("other", "xs", "nest|sum(start=acc)", "TL", "GL|reverse|list"),
 }
-A_TEMPLATES = ["a_sum", "a_sort", "a_map", "a_batch", "a_setns", "a_loops", "a_macros", "a_import", "a_include", "a_extends", "a_other"]
+A_TEMPLATES = ["a_sum", "a_sort", "a_minmax", "a_map", "a_map2", "a_select", "a_reject", "a_batch", "a_setns", "a_loops", "a_macros", "a_import", "a_include", "a_extends", "a_other"]
 
 # one-expression templates for the mode B table (text output compared)
 EXPRS = [
@@ -272,14 +276,15 @@ STMTS = {
     "s_autoesc": "{% autoescape true %}{{ ss|join(',') }}{{ mk|join }}{{ xs|join('<') }}{% endautoescape %}"
                  "{% autoescape false %}{{ ss|join(',') }}{{ mk|join }}{% endautoescape %}",
     "s_fromctx": "{% from 'a_lib' import LV, LD %}{{ LV + xs }}{{ LD }}{% import 'a_lib' as l2 %}{{ l2.LV }}{{ l2 }}",
-    "s_inc_nc": "{% include 'a_inc2' without context %}{% include 'a_inc2' %}{% include ['nope', 'a_inc2'] without context %}",
+    "s_inc2": "inc2[{{ GL }}{{ xs|default('nox') }}{{ TL|default('notl') }}]",
+    "s_inc_nc": "{% include 's_inc2' without context %}{% include 's_inc2' %}{% include ['nope', 's_inc2'] without context %}",
     "s_module": "{% import 's_modlib' as ml %}{{ ml.hello(xs) }}{{ ml.cfg|dictsort }}{{ ml.lst + acc }}",
     "s_modlib": "{% set cfg = {'a': [1], 'b': GL} %}{% set lst = [1, 2] + GL %}{% macro hello(v) %}h{{ v|sort }}{{ lst }}{{ cfg.a }}{% endmacro %}",
     # unchanged tree: state of a namespace in a cached module leaks into the next render (SUSPECTED_DEFECTS) -- excluded
     "s_nslib": "{% set ns = namespace(c=0) %}{% macro bump() %}{% set ns.c = ns.c + 1 %}{{ ns.c }}{% endmacro %}",
     "s_nsmod": "{% import 's_nslib' as lib %}{{ lib.bump() }}",
     "o_mix": "{% set xs = [] %}{% set acc = acc + [0] %}{% from 'a_lib' import LV %}{% import 's_modlib' as ml %}{{ ml.hello(nest|sum(start=[])) }}"
-             "{{ items|groupby('k')|list|length }}{{ nest|sum(start=acc) }}{{ GL|sort }}{{ TL|reverse|list }}{% include 'a_inc2' without context %}"
+             "{{ items|groupby('k')|list|length }}{{ nest|sum(start=acc) }}{{ GL|sort }}{{ TL|reverse|list }}{% include 's_inc2' without context %}"
              "{% for x in ss|sort %}{% set GL = x %}{% endfor %}{{ d|dictsort }}",
 }
 SOURCES = dict(SKEL)
@@ -300,11 +305,11 @@ G_FORMS = [
     "{% from 'g_lib' import show with context %}{{ show(rec, 4) }}",
     "{% include 'g_inc' %}" + R("me", "g|default(-1)"),
     "{% extends 'g_base' %}{% block b %}{{ super() }}{% import 'g_lib' as l %}{{ l.show(rec, 6) }}" + R("top", "l.top") + "{% endblock %}",
-    "{% import 'g_mid' as mid %}{{ mid.via(rec) }}" + R("midtop", "mid.l.top"),
+    "{% import 'g_mid' as mid %}{{ mid.via(rec) }}" + R("midl", "mid.l is defined", "mid.via is defined"),
     "{% include 'g_lib' without context %}{% import 'g_lib' as l %}{{ l.show(rec, 9) }}",
 ]
 G_SOURCES = {
-    "g_lib": "{% set top = g|default(-1) %}" + _SHOW + "[{{ 'G' if g is defined else 'nog' }}{{ 'H' if h is defined else 'noh' }}]",
+    "g_lib": "{% set top = g|default(-1) %}{% set z = chk() %}" + _SHOW + "[{{ 'G' if g is defined else 'nog' }}{{ 'H' if h is defined else 'noh' }}]",
     "g_inc": R("inc", "g|default(-1)") + "{% import 'g_lib' as l %}{{ l.show(rec, 5) }}" + R("inctop", "l.top"),
     "g_base": "{% import 'g_lib' as bl %}<{% block b %}{{ bl.show(rec, 7) }}" + R("base", "g|default(-1)", "bl.top") + "{% endblock %}>",
     "g_mid": "{% import 'g_lib' as l %}{% macro via(r) %}{{ l.show(r, 8) }}{{ r('mid', g|default(-1)) }}{% endmacro %}",
@@ -321,6 +326,7 @@ P = {}
 def setup(param):
     P.clear()
     P.update(param or {})
+    CACHES.clear()
 
 
 def _deps():
@@ -367,6 +373,26 @@ def render(t, data, log):
     return out
 
 
+class MemCache(BytecodeCache):
+    """In-memory store behind jinja2's own bytecode cache interface: every path creates fresh Environments, the
+    compiled code of a (name, source) is shared between them inside one worker process (one store per
+    async/autoescape configuration, because the cache key does not include the configuration)."""
+
+    def __init__(self):
+        self.store = {}
+
+    def load_bytecode(self, bucket):
+        b = self.store.get(bucket.key)
+        if b is not None:
+            bucket.bytecode_from_string(b)
+
+    def dump_bytecode(self, bucket):
+        self.store[bucket.key] = bucket.bytecode_to_string()
+
+
+CACHES = {}
+
+
 class Case:
     """A fresh Environment with its own global containers; T and O loaded with template globals."""
 
@@ -376,7 +402,8 @@ class Case:
         self.t = {}
         self.tg = {}
         with NoTracing():
-            env = Environment(loader=DictLoader(sources), enable_async=asyncm, autoescape=autoescape)
+            bc = CACHES.setdefault((asyncm, autoescape), MemCache())
+            env = Environment(loader=DictLoader(sources), enable_async=asyncm, autoescape=autoescape, bytecode_cache=bc)
             self.base_globals = dict(env.globals)
             env.globals.update(eg)
             self.env = env
@@ -426,9 +453,10 @@ class Case:
         return True
 
 
-def check_repeat(asyncm, autoescape, tname, oname, plans, mkdata, mkeg, mktg, preload):
+def check_repeat(asyncm, autoescape, tname, oname, plans, mkdata, mkeg, mktg, preload, iso_first=False):
     """plans: list of (sequence, notg); notg: T and O are loaded WITHOUT template globals (their imports then use the
-    cached modules) and TL/TD are environment globals instead."""
+    cached modules) and TL/TD are environment globals instead.  iso_first: the first plan starts with T and that first
+    render in the fresh environment serves as the isolated render (nothing else was rendered there before)."""
     def case(notg):
         eg = mkeg()
         if notg:
@@ -442,19 +470,22 @@ def check_repeat(asyncm, autoescape, tname, oname, plans, mkdata, mkeg, mktg, pr
     snap = clone(data)
     wants = {}
     for seq, notg in plans:
-        if notg not in wants:
+        if notg not in wants and not (iso_first and not wants):
             iso = case(notg)
             d0 = mkdata()
             s0 = clone(d0)
             wants[notg] = render(iso.t["T"], d0, Log())
             if wants[notg][0] == "ctx-modified" or not same(d0, s0) or not iso.globals_ok():
                 return False
-        want = wants[notg]
         c = case(notg)
         for who in seq:
             if who == "T":
                 got = render(c.t["T"], data, Log())
-                if got != want:
+                if notg not in wants:
+                    wants[notg] = got
+                    if got[0] == "ctx-modified":
+                        return False
+                elif got != wants[notg]:
                     return False
             else:
                 got = render(c.t.get("O", c.t["T"]), data, Log())
@@ -465,7 +496,7 @@ def check_repeat(asyncm, autoescape, tname, oname, plans, mkdata, mkeg, mktg, pr
     return same(data, snap)
 
 
-SEQS = [["T", "O", "T", "T"], ["O", "T", "T"]]
+SEQS = [["T", "O", "T", "T"], ["O", "T", "T"], ["T", "O", "T"]]
 
 
 # ---- mode A
@@ -493,8 +524,9 @@ def rep_ok(xs: List[int], ys: List[int], n: int, m: int, b: bool) -> bool:
         return dict(TL=[n, m], TD={"k": [x for x in xs]})
 
     tname, oname = P["tpl"], P["other"]
-    plans = [(SEQS[i], bool(notg)) for i, notg in P.get("plans", [[0, 0], [1, 1]])]
-    return check_repeat(bool(P.get("asyncm")), False, tname, oname, plans, mkdata, mkeg, mktg, DEPS[tname] + DEPS[oname])
+    plans = [(SEQS[i], bool(notg)) for i, notg in P["plans"]]
+    return check_repeat(bool(P.get("asyncm")), False, tname, oname, plans, mkdata, mkeg, mktg, DEPS[tname] + DEPS[oname],
+                        iso_first=bool(P.get("iso_first")))
 
 
 # ---- mode B table
@@ -526,7 +558,7 @@ def row_tg(i):
     return [dict(TL=[7, 8], TD={"k": [3]}), dict(TL=[], TD={}), dict(TL=[[1], 0], TD={"a": [1], "b": {"c": []}})][i]
 
 
-# (other template, order, notg) combinations: all 12 in the thorough tier, a covering 4 in the quick tier
+# (other template, order, notg) combinations: all 12 in the thorough tier, four in the quick tier
 COMBOS_ALL = [(o, order, notg) for o in range(len(B_OTHERS)) for order in (False, True) for notg in (False, True)]
 COMBOS_QUICK = [(0, False, False), (1, True, True), (2, False, True), (0, True, False)]
 NSMOD = B_TABLE.index("s_nsmod")
@@ -561,14 +593,34 @@ def tab_ok(t: int, r: int, c: int) -> bool:
 
 
 # ---- import / module cache scenario (mode B)
+class Outage(Exception):
+    pass
+
+
+class Chk:
+    """Environment global called by the body of g_lib; raises while ``down`` is set (a failed render in the history)."""
+
+    def __init__(self):
+        self.down = False
+
+    def __call__(self):
+        if self.down:
+            raise Outage("down")
+        return 7
+
+
 def _imp_case(asyncm, loads, eglob, touch):
-    c = Case(G_SOURCES, asyncm, False, ({"h": 33} if eglob else {}), loads, [])
+    eg = {"chk": Chk()}
+    if eglob:
+        eg["h"] = 33
+    c = Case(G_SOURCES, asyncm, False, eg, loads, [])
+    c.chk = eg["chk"]
     if touch:
         c.env.get_template("g_lib").module  # the Python-level API fills the module cache too
     return c
 
 
-def imp_run(fa, wa, fb, wb, eglob, touch, asyncm):
+def imp_run(fa, wa, fb, wb, eglob, touch, fail, asyncm):
     def load_a():
         return ("A", "g_A%d" % fa, wa, {"g": 11} if wa else None)
 
@@ -579,19 +631,44 @@ def imp_run(fa, wa, fb, wb, eglob, touch, asyncm):
     for key, ld in (("A", load_a), ("B", load_b)):
         iso = _imp_case(asyncm, [ld()], eglob, False)
         want[key] = render(iso.t[key], {"d": [1]}, Log())
-        if not iso.globals_ok():
+        if not iso.globals_ok() or want[key][0] != "ok":
             return False
     c = _imp_case(asyncm, [load_a(), load_b()], eglob, touch)
     data = {"d": [1]}
+    if fail:
+        # a render in the history that fails because a global callable raises; it must leave nothing behind
+        key = "A" if fail == 1 else "B"
+        c.chk.down = True
+        got = render(c.t[key], data, Log())
+        c.chk.down = False
+        if got[0] == "exc":
+            if got[1] != "Outage":
+                return False
+        elif got != want[key]:
+            return False
     for key in ("A", "B", "A", "B"):
         if render(c.t[key], data, Log()) != want[key]:
             return False
     return c.globals_ok() and same(data, {"d": [1]})
 
 
-def imp_ok(fa: int, wa: int, fb: int, wb: int, eglob: bool, touch: bool) -> bool:
+NFAIL = 3
+
+
+def IMP_PRE(fa, wa, fb, wb, eglob, touch, fail):
+    if not (0 <= fa < NFORM and 0 <= fb < NFORM and 0 <= wa < NWAY and 0 <= wb < NWAY and 0 <= fail < NFAIL and fa == P.get("fa", fa)):
+        return False
+    if touch and P.get("asyncm"):
+        return False  # Template.module is not available in async mode
+    if P.get("quick"):
+        # quick tier: the two flags are functions of the other selectors instead of free
+        return eglob == (fb % 2 == 1) and touch == (wb % 2 == 1 and not P.get("asyncm"))
+    return True
+
+
+def imp_ok(fa: int, wa: int, fb: int, wb: int, eglob: bool, touch: bool, fail: int) -> bool:
     """
-    pre: 0 <= fa < NFORM and 0 <= fb < NFORM and 0 <= wa < NWAY and 0 <= wb < NWAY and (not touch or not P.get("asyncm")) and fa == P.get("fa", fa)
+    pre: IMP_PRE(fa, wa, fb, wb, eglob, touch, fail)
     post: _
     """
     fa = pick(fa, NFORM)
@@ -600,25 +677,38 @@ def imp_ok(fa: int, wa: int, fb: int, wb: int, eglob: bool, touch: bool) -> bool
     wb = pick(wb, NWAY)
     eglob = pickb(eglob)
     touch = pickb(touch)
+    fail = pick(fail, NFAIL)
     with NoTracing():
-        return imp_run(fa, wa, fb, wb, eglob, touch, bool(P.get("asyncm")))
+        return imp_run(fa, wa, fb, wb, eglob, touch, fail, bool(P.get("asyncm")))
 
 
 def conditions(tier, seed):
     thorough = tier == "thorough"
     out = []
     to = 300 if thorough else 60
-    wits = [[[3, 1], [7, 8], 2, 5, True], [[], [], 1, 0, False], [[2, 2], [0], 3, -1, True]]
+    wits = [[[3, 1], [7], 2, 5, True], [[], [], 1, 0, False], [[2, 2], [0], 3, -1, True]]
+    importish = ("a_import", "a_include", "a_extends", "a_other")
+    rot = ["a_other", "a_import", "a_extends"]
     for i, tname in enumerate(A_TEMPLATES):
-        others = [o for o in A_TEMPLATES if o != tname] if thorough else [(["a_other", "a_import", "a_extends"] * 4)[i]]
+        k = (i + 1) % 3 if thorough else i % 3
+        others = [rot[k] if rot[k] != tname else "a_sum"]
         for oname in others:
-            if oname == tname:
-                oname = "a_sum"
             for asyncm in (False, True):
-                p = dict(tpl=tname, other=oname, asyncm=asyncm, maxx=3 if thorough else 2, maxy=2)
-                out.append(Cond(f"rep[{tname},{oname},{'async' if asyncm else 'sync'}]", "rep_ok", mode="A", param=p, timeout=to, witnesses=wits,
-                                bounds=f"xs: <= {p['maxx']} arbitrary ints, ys: <= 2 arbitrary ints, any ints n, m, any flag; "
-                                       f"sequences T O T T and O T T against an isolated render"))
+                if thorough:
+                    variants = [("both", [[0, 0], [1, 1]], False)]
+                else:
+                    # quick: one environment, T O T; the first render in the fresh environment is the isolated one
+                    variants = [("tg", [[2, 0]], True)] + ([("notg", [[2, 1]], True)] if tname in importish else [])
+                for vname, plans, iso_first in variants:
+                    p = dict(tpl=tname, other=oname, asyncm=asyncm, maxx=3 if thorough else 2, maxy=1,
+                             plans=plans, iso_first=iso_first)
+                    out.append(Cond(f"rep[{tname},{oname},{vname},{'async' if asyncm else 'sync'}]", "rep_ok", mode="A", param=p, timeout=to,
+                                    witnesses=wits,
+                                    bounds=f"xs: <= {p['maxx']} arbitrary ints, ys: <= {p['maxy']} arbitrary ints, any ints n, m, any flag; "
+                                           + ("sequences T O T T and O T T against a separate isolated render, template globals given to "
+                                              "the template and to the environment" if thorough else
+                                              "sequence T O T in a fresh environment (first render = isolated render), template globals "
+                                              "given to the " + ("environment" if vname == "notg" else "template"))))
     chunk = 25 if thorough else 50
     for asyncm in (False, True):
         for autoescape in (False, True):
@@ -631,9 +721,9 @@ def conditions(tier, seed):
                                        f"{len(B_OTHERS)}, order T-O-T-T / O-T-T, template globals given to the template / to the environment)"))
     for asyncm in (False, True):
         for fa in range(NFORM):
-            p = dict(asyncm=asyncm, fa=fa)
+            p = dict(asyncm=asyncm, fa=fa, quick=not thorough)
             out.append(Cond(f"imp[A{fa},{'async' if asyncm else 'sync'}]", "imp_ok", mode="B", param=p, timeout=to,
-                            witnesses=[[fa, 0, 1, 1, False, False], [fa, 1, 0, 0, True, False], [fa, 3, 5, 2, True, False]],
+                            witnesses=[[fa, 0, 1, 1, True, not asyncm, 0], [fa, 1, 0, 0, False, False, 1], [fa, 3, 5, 2, True, False, 2]],
                             bounds=f"importer form A={fa} x {NWAY} ways of giving template globals x {NFORM} forms B x {NWAY} ways x env global on/off"
-                                   " x module pre-touched (sync)"))
+                                   " x module pre-touched (sync) x a failing render (global callable raising in the library body) of A / of B / none first"))
     return out
